@@ -110,11 +110,23 @@ def step (t : List String) : Option String :=
       -- (with the caller's pointer, mode 0, or with null, mode 2) rlbox falls back to allocate-and-copy: the result is
       -- inside the sandbox in every case and holds the source bytes
       let mode ← mode.toNat?
-      let (_, sk) ← addrOf src
+      let (s, sk) ← addrOf src
       let sz ← appSize el
       let c ← (parseInt? num).map Int.toNat
-      if sk != "app" ∨ c = 0 ∨ c * sz > 0x4000 then none else
+      if c = 0 ∨ c * sz > 0x4000 then none else
+      -- the source range is checked first, whatever the backend would answer: null or boundary-crossing sources never proceed
+      if ¬ checkRange K s (c * sz) then pure "abort" else
+      if sk != "app" then none else
       pure s!"ok inside copied={if mode = 1 then 0 else 1} bytes=same"
+  | ["denygo", mode, el, off, num] => do
+      let mode ← mode.toNat?
+      let sz ← appSize el
+      let off ← off.toNat?
+      let c ← (parseInt? num).map Int.toNat
+      if c = 0 ∨ c * sz > 0x4000 then none else
+      let p := base0 + 2 * Driver.PtrEng.stride + off          -- the third sandbox of the harness (address slot 2)
+      if ¬ checkRange K p (c * sz) then pure "abort" else
+      pure s!"ok app copied={if mode = 1 then 0 else 1} bytes=same"
   | ["denyg", mode, el, num] => do
       let mode ← mode.toNat?
       let sz ← appSize el
